@@ -5,6 +5,7 @@ Tie (DESIGN §6 C12): the REAL engine classes run
     imposed from inside the engines' own sleep()/poll() calls (no timing),
   * TurtleMDEngine / ASEEngine natively (free flight: exact dyadic arithmetic; ASE also harmonic),
   * a minimal plug-in EngineBase subclass (exhaustive add_to_path / propagate check),
+(audit pass: exceptions raised inside the LAMMPS/CP2K loop body or in sleep() — props/c12_fault.py, Model/EngineFault.lean, op extf)
 (extension pass: also EngineBase.propagate's wrapper, execute_command, calculate_order, snapshot_to_system and the
 whole-propagate compositions of Model/EnginePropagate.lean — ops propsetup, exec, calcorder, snap, propinproc, propgmx, cp2ktraj)
 and the recorded path (order values, (file, index), vel_rev), the order parameter recomputed
@@ -367,14 +368,20 @@ def _run_ext_in(case, work):
         old_sleep = mod.sleep
         mod.sleep = c.sleep
         ctl.FakeCtl.active = c
+        from props import c12_fault
         try:
-            ok, status = eng.propagate(path, ens, system, reverse=bool(case["rev"]))
+            # audit pass: case["fault"] makes the loop body (or a sleep) of THIS propagate raise (props/c12_fault.py)
+            with c12_fault.inject(case, eng, mod, c):
+                ok, status = eng.propagate(path, ens, system, reverse=bool(case["rev"]))
             obs["success"] = bool(ok)
             obs["status"] = _status(status)
         except ctl.HarnessHang:
             raise
-        except Exception as e:  # noqa: BLE001
-            obs["raised"] = err_kind(e)
+        except BaseException as e:  # noqa: BLE001
+            fk = c12_fault.classify(e) if case.get("fault") else None
+            if fk is None and not isinstance(e, Exception):
+                raise
+            obs["raised"] = fk or err_kind(e)
             obs["exc"] = f"{type(e).__name__}: {str(e)[:200]}"
         finally:
             ctl.FakeCtl.active = None
@@ -2115,8 +2122,22 @@ def _map_cases(ctx, cases):
     _top()
     if nproc == 1 or len(cases) < 8:
         return [run_any(c) for c in cases]
+    # audit pass: the code-coverage side channel (VERIF_COV=1 / thorough tier) measures the MAIN process only; without a
+    # share of the external-engine cases run here, the LAMMPS/CP2K/GROMACS loops show up as never entered
+    cov_on = os.environ.get("VERIF_COV", "1" if ctx.tier == "thorough" else "0") == "1"
+    head_by = {}
+    if cov_on:
+        step = max(1, len(cases) // 80)
+        head_by = {i: run_any(cases[i]) for i in list(range(0, len(cases), step))[:80]}     # spread over all case classes
+    rest_idx = [i for i in range(len(cases)) if i not in head_by]
     with mp.get_context("fork").Pool(nproc) as pool:
-        return pool.map(run_any, cases, chunksize=4)
+        rest = pool.map(run_any, [cases[i] for i in rest_idx], chunksize=4)
+    out = [None] * len(cases)
+    for i, o in head_by.items():
+        out[i] = o
+    for i, o in zip(rest_idx, rest):
+        out[i] = o
+    return out
 
 
 def run(ctx):
@@ -2134,6 +2155,8 @@ def run(ctx):
 
 def _run(ctx):
     have_model = ctx._driver_ok
+    from props import c12_fault
+    c12_fault.reset()
     # ================================================================= external engines
     cases = gen_ext_cases(ctx)
     obs_all = _map_cases(ctx, cases)
@@ -2174,6 +2197,24 @@ def _run(ctx):
                              or obs["returncode"] == (-15 if m["killed"] else case["code"])))
                 if same:
                     agree.append(variant)
+            if obs["raised"] == "err:index":
+                # an exception that leaves the block: the handler of the exception guard (Model/EngineFault.lean, proposed
+                # repair) polls once more before re-raising — the code must side with ONE guard over all cases (c12_fault.GUARD)
+                if agree:
+                    c12_fault.GUARD[eng] &= {"asis"}
+                else:
+                    g_ans = ctx.driver(["extf guarded - " + ext_line(case, obs["realised"], v if v != "-" else "rep")[4:] for v in ms])
+                    for variant, a in zip(list(ms), g_ans):
+                        if " | " not in a:
+                            continue
+                        m = parse_model(a)
+                        if (cv == model_view(m) and obs["ticks"] == m["ticks"] and (obs["proc"] == "stopped") == m["dead"]
+                                and (obs["returncode"] is None or not m["dead"]
+                                     or obs["returncode"] == (-15 if m["killed"] else case["code"]))):
+                            agree.append(variant)
+                            ms[variant] = m
+                    if agree:
+                        c12_fault.GUARD[eng] &= {"guarded"}
             if not agree:
                 ctx.disagree({"engine": eng, "case": case, "realised": obs["realised"]},
                              {**cv, "ticks": obs["ticks"], "proc": obs["proc"], "returncode": obs["returncode"]},
@@ -2209,6 +2250,9 @@ def _run(ctx):
                      "one variant consistently")
     ctx.extra["lammps_variant_consistent_with"] = sorted(consistent)
     ctx.extra["lammps_wrong_box_cases"] = wrong_box_seen
+    # ================================================================= audit pass: exceptions leaving the loop body
+    from props import c12_fault
+    c12_fault.run_fault(ctx)
     # ================================================================= GROMACS (fake gmx)
     gcases = gen_gmx_cases(ctx)
     gobs = _map_cases(ctx, gcases)
@@ -2482,7 +2526,14 @@ def replay(ctx, obj):
         obs = run_any(case)
         n0 = len(ctx.fails)
         rep = {"case": case, "observed": obs}
-        if case["engine"] in ("lammps", "cp2k", "gromacs"):
+        if case.get("fault"):
+            from props import c12_fault
+            case["fault"] = dict(case["fault"])
+            c12_fault.check_fault_property(ctx, case, obs)
+            pend = ctx.extra.get("pending_findings")
+            if pend:
+                print(json.dumps({"pending (open finding, not a violation)": sorted(pend)}))
+        elif case["engine"] in ("lammps", "cp2k", "gromacs"):
             check_ext_property(ctx, case, obs)
         elif case["engine"] in ("turtle", "ase"):
             check_inproc_property(ctx, case, obs)
